@@ -76,7 +76,10 @@ CHECKS = {
               "as struct/list/map/binary/set/i32. Targets: typed reads (plain and generated-code-like call sequence, all four "
               "binary/string APIs), skip, async typed read and async skip. Oracle: Ok or Err; no panic, no dead worker, <2 s, bytes "
               "requested from the allocator <= 64 KiB + 1024 x input length, every strict prefix rejected. distinct_nontrivial = "
-              "distinct (protocol, type, bytes) fault inputs. Generated-code level: see the C09 generated half when built."),
+              "distinct (protocol, type, bytes) fault inputs. Generated-code level (every generated type of the semantic corpus, "
+              "retention off/on): seeds = a rich value, a minimal value and the rich value with every string/binary stretched to 40 "
+              "[300, 5000] bytes; the same truncations, annotated overwrites and bit flips; sync and async decode; recursive types "
+              "nested up to the depth at which the worker dies (recorded finding)."),
         assumptions=["the allocator window includes the harness's own Val tree (<= ~100 bytes per input byte), which the budget "
                      "covers", "async readers are driven with the deliver-everything schedule here; schedules are C12's subject"],
     ),
@@ -201,7 +204,9 @@ CHECKS = {
               "overflow or never terminate (also in place of the first key); each with a Bytes buffer and two-chunk buffers split at "
               "len/2 and at every offset around the fault (before, inside and after the flipped byte / rewritten varint; all split "
               "points for the short strings of (a)); (c) nesting depth 1..300 and 5000 / 200 000 [10^3..10^6 for groups] through every recursive position "
-              "(singular, repeated, map value, group fields of the hand-written message) and through unknown groups in any message. "
+              "(singular, repeated, map value, group fields of the hand-written message) and through unknown groups in any message; "
+              "the same routes with each kind of field of the message (scalar, string, repeated, map entry, oneof member, embedded "
+              "message: up to 8 [16] kinds) as the innermost content at depths 1..300 (quick: every depth in 90..112, every 7th elsewhere). "
               "Oracle: Ok or DecodeError - no panic, no worker death (stack overflow, abort), < 2 s; bytes allocated <= 64 KiB + "
               "4 x len x (largest message size_of + 64); a length prefix larger than the remaining input is rejected with at most "
               "what the unfaulted decode allocates + 2 KiB + len; depth > 100 is rejected, depth <= 64 (32 through map entries, which "
@@ -275,10 +280,13 @@ CHECKS = {
     ),
     "C14": dict(
         engine="py:c14", level="exploration", quick_cap=600, thorough_cap=7200,
-        rule=("Programs: the naming-stress and structural Thrift corpus of lib/corpus.py thrift_stress() (27 documents: every "
+        rule=("Programs: the naming-stress and structural Thrift corpus of lib/corpus.py thrift_stress() (33 documents: every "
               "Rust keyword of pilota's KEYWORDS_SET as struct / field / argument / method / enum / variant / typedef / const name; "
               "std prelude names as type and variant names; identifiers colliding after case conversion; recursion through "
-              "optional fields, lists, maps, unions, typedefs, exceptions and required fields; constants of every kind incl. nested "
+              "optional fields, lists, maps, unions, typedefs, exceptions and required fields (incl. required through a union); type "
+              "cycles (2- and 3-cycles, both declaration orders, self recursion) whose members reach types without Hash/Eq/Ord or "
+              "PartialOrd through struct-typed fields; several files generating into one Rust module; Builder::dedup with an identical "
+              "item in 12 modules and twice in one module; constants of every kind incl. nested "
               "and struct literals; a 5-file document with includes, nested and sibling namespaces, same type names in several "
               "files and cross-file service extends; services with oneway/void/extends/throws; every container nesting to depth "
               "3) + the 7 semantic documents [+ the protobuf documents]. Configurations: quick = one document per construct label "
@@ -293,7 +301,8 @@ CHECKS = {
     "C17": dict(
         engine="py:c17", level="model_checking", quick_cap=600, thorough_cap=7200,
         rule=("Documents: a 5-file Thrift document with nested/sibling namespaces, the case-collision document, the service "
-              "document, a protobuf file with 4+ nested messages [thorough: 5 more incl. a two-file protobuf import] x output modes "
+              "document, six files sharing one rs namespace, twelve modules with an identical item under Builder::dedup, a protobuf "
+              "file with 4+ nested messages [thorough: 5 more incl. a two-file protobuf import] x output modes "
               "{single file, split files, workspace}. Schedules: (a) with the cfg(pilota_verif) hook the per-module code generation "
               "tasks run sequentially in a dictated order: ALL permutations for <=4 [5] tasks (adjacent transpositions + reversal "
               "beyond); (b) without the hook: per-process hash seeds 0..7 [0..95] x rayon pool sizes {1,16} [{1,2,3,4,8,16}], the "
